@@ -83,6 +83,17 @@ def ob_multiscalar_callers(ctx, f, v, blocks):
     return ok and {g.key for g in callers} <= {CORE + "compute_group_commitment", CORE + "batch::Verifier::<C>::verify"}
 
 
+def ob_first_after_empty_return(ctx, f, v, blocks):
+    """`nafs[0]` is reached only when `nafs.is_empty()` is false (an empty signing package reaches this code)"""
+    zero_idx = {b for b in blocks if len(v.call_args(b)) > 1 and const(0)(v.call_args(b)[1])}
+    if len(zero_idx) != 1:
+        return False
+    edges = {e for (e, fa) in v.facts if fa[0] == "cond" and fa[1] == "empty" and not fa[4] and mentions(fa[2], arg(1))} | \
+        {e for (e, fa) in v.facts if fa[0] == "cond" and fa[1] == "eq" and not fa[4] and fa[3] is not None and
+         ((const(0)(fa[2]) and length(contains_term(arg(1)))(fa[3])) or (const(0)(fa[3]) and length(contains_term(arg(1)))(fa[2])))}
+    return bool(edges) and not sep(f, edges, zero_idx)
+
+
 def reason(r):
     return (None, r)
 
@@ -137,7 +148,7 @@ REVIEWED = {
     ("scalar_mul::NonAdjacentForm<C>>::non_adjacent_form", "call:Index::index"): (3, "x_u64[pos/64] with pos < naf_length <= 64*num_limbs; x_u64[1+pos/64] only when the window crosses a limb and more bits remain (naf_length = 8*len+1 leaves the top limb partially used)", None),
     ("scalar_mul::NonAdjacentForm<C>>::non_adjacent_form", "call:slice::copy_from_slice"): (1, "destination padded[..serialization_len] and source have length serialization_len", None),
     ("scalar_mul::NonAdjacentForm<C>>::non_adjacent_form", "call:byteorder::read_u64_into"): (1, "source has num_limbs*8 bytes, destination num_limbs u64s", None),
-    ("scalar_mul::VartimeMultiscalarMul<C>>::optional_multiscalar_mul", "call:Index::index"): (5, "nafs[0] after the is_empty return; naf[i] with i < naf_length = nafs[0].len() and all NAFs of one ciphersuite have equal length", None),
+    ("scalar_mul::VartimeMultiscalarMul<C>>::optional_multiscalar_mul", "call:Index::index"): (5, "nafs[0] after the is_empty return; naf[i] with i < naf_length = nafs[0].len() and all NAFs of one ciphersuite have equal length", ob_first_after_empty_return),
     ("scalar_mul::VartimeMultiscalarMul<C>>::optional_multiscalar_mul", "assert:overflow:Neg"): (1, "-naf[i] for an i8 digit in (-16, 0)", None),
     ("scalar_mul::LookupTable5::<C, T>::select", "call:panic:assert_failed"): (1, "debug_assert_eq!(x & 1, 1): NAF digits are odd", None),
     ("scalar_mul::LookupTable5::<C, T>::select", "call:panic:panic"): (1, "debug_assert!(x < 16): width-5 NAF digits", None),
